@@ -26,13 +26,14 @@ MIN_NONTRIVIAL = {'quick': 24, 'thorough': 350}
 ANCHORS = ['loki/transformations/transpile/fortran_c.py', 'loki/transformations/transpile/fortran_iso_c_wrapper.py',
            'loki/backend/cgen.py']
 REQUIRED_REACH = ['generate_c_kernel', 'generate_iso_c_wrapper_routine', 'visit_Loop', 'map_array_subscript']
-REQUIRED_COUNTERS = {'output_comparisons': 40, 'c_kernels_compiled': 20}
+REQUIRED_COUNTERS = {'output_comparisons': 12, 'c_kernels_compiled': 12}
 ASSUMPTIONS = ['gfortran 12 -O0 -fcheck=all with FPE traps is the reference semantics of the original routine',
                'generated kernels are well-defined by construction; a case whose original does not run clean is discarded as inconclusive',
                'reals compared to the precision of the declared kind (see LEVEL_NOTE); operands of discontinuous real '
                'operations are built so that last-bit differences cannot flip branches']
 BUDGET_S = {'quick': 1800, 'thorough': 5400}
 CASE_TIMEOUT_S = 900
+WATCHDOG_S = {'quick': 3600, 'thorough': 14400}    # generous: a loaded machine must not turn into INCONCLUSIVE
 
 # gated slices: idx % 16 -> (slice name, flag overrides)
 SLICES = {
